@@ -170,6 +170,8 @@ def finish(mod, prop, tier, seed, reports, wall, write=True):
                     extra[k].extend(v[:40 - len(extra[k])])
             else:
                 extra.setdefault(k, v)
+    for hp in extra.get("harness_problems", [])[:5]:
+        inconclusive.append(f"oracle self-test failed: {json.dumps(hp)[:300]}")
     deciding = getattr(mod, "DECIDING", [])
     for d in deciding:
         if monitors.get(d, {}).get("calls", 0) == 0:
